@@ -87,6 +87,8 @@ TIE_SEARCH = {
     "load_rejects_finished": ("TieFibers", "vm_load_fiber"), "load_rejects_called": ("TieFibers", "vm_load_fiber"), "load_effect": ("TieFibers", "vm_load_fiber"),
     "load_first_effect": ("TieFibers", "vm_load_fiber"), "load_stages": ("TieFibers", "vm_load_fiber"), "load_dangling_panics": ("TieFibers", "vm_load_fiber"),
     "unload_stages": ("TieFibers", "vm_unload_fiber"), "unload_no_caller": ("TieFibers", "vm_unload_fiber"), "unload_effect": ("TieFibers", "vm_unload_fiber"),
+    "call_wrong_arity": ("TieCalls", "vm_call_closure"), "call_depth_limit": ("TieCalls", "vm_call_closure"), "call_effect": ("TieCalls", "vm_call_closure"),
+    "return_to_caller": ("TieCalls", "vm_return_impl"), "call_return_roundtrip": ("TieCalls", "vm_return_impl"), "return_finishes_fiber": ("TieCalls", "vm_return_impl"),
     "precedence_from_discr": ("TieCompiler", "Precedence::from"),
     "precedence_from_panics_iff": ("TieCompiler", "Precedence::from"),
     "precedence_names_are_the_table": ("TieCompiler", "Precedence-enum"),
